@@ -93,7 +93,9 @@ def truncated_svd(
 
     if algorithm == "svd":
         start = time.time()
-        svd = torch.linalg.svd(M)[:2]
+        svd = torch.linalg.svd(M)
+        Vh = svd[2]
+        svd = svd[:2]
 
         singular_vectors = "left"
         if verbose:
@@ -178,7 +180,10 @@ def truncated_svd(
         if left_ortho:
             M2 = left.permute(dims_permute) @ M
         else:
-            M2 = sinv[..., None] * left.permute(dims_permute) @ M
+            if algorithm == "svd":  # The right singular vectors themselves: orthonormal to machine precision
+                M2 = Vh[..., :rank, :]
+            else:
+                M2 = sinv[..., None] * left.permute(dims_permute) @ M
             if batch:
                 left = torch.einsum("bij,bj->bij", left, svd[1][..., :rank])
             else:
